@@ -115,6 +115,14 @@ func (ch *Channel) Unsubscribe(conn *net.Conn) bool {
 	return true
 }
 
+// HasSubscriber reports whether the connection is subscribed to the channel.
+func (ch *Channel) HasSubscriber(conn *net.Conn) bool {
+	ch.subscribersRWMut.RLock()
+	defer ch.subscribersRWMut.RUnlock()
+	_, ok := ch.subscribers[conn]
+	return ok
+}
+
 func (ch *Channel) Publish(message string) {
 	*ch.messageChan <- message
 }
